@@ -412,7 +412,7 @@ func H_C17_Scan(v *verifrt.T) {
 	size1, size2 := v.Int64("size1"), v.Int64("size2")
 	v.Assume(size1 >= 0)
 	v.Assume(size1 <= 4096)
-	v.Assume(size2 >= 1)
+	v.Assume(size2 >= 0) // (0: the file was truncated to nothing)
 	v.Assume(size2 <= 4096)
 	t1 := v.Now().Add(-2 * time.Hour)
 	dt := v.Duration("mtime-step", -time.Hour, time.Hour) // the new version may carry an older time (mv, cp -p, rsync -t)
@@ -454,6 +454,11 @@ func H_C17_Scan(v *verifrt.T) {
 	broker.cleanSome = true
 	ready = broker.scan()
 	changed := verifrt.Or(size2 != size1, dt != 0)
+	if size2 == 0 {
+		v.Assert(len(ready) == 0, "C17.O3 a zero-length file is never queued, also when it is what is left of a file that was sent before")
+		v.Reach("truncated-to-nothing")
+		return
+	}
 	if len(ready) == 1 {
 		v.Reach("requeued")
 		v.Assert(changed, "C17.O4 a file whose size and time are unchanged is not queued again")
@@ -478,7 +483,7 @@ func H_C17_Retry(v *verifrt.T) {
 	size1, size2 := v.Int64("size1"), v.Int64("size2")
 	v.Assume(size1 >= 1)
 	v.Assume(size1 <= 4096)
-	v.Assume(size2 >= 1)
+	v.Assume(size2 >= 0) // (0: the file was truncated to nothing)
 	v.Assume(size2 <= 4096)
 	t1 := v.Now().Add(-2 * time.Hour)
 	dt := v.Duration("mtime-step", -time.Hour, time.Hour)
